@@ -287,7 +287,7 @@ func genSize(c *Ctx, big bool) int {
 	case 6:
 		// around PES_packet_length overflow: size + (5|10) + 3 > 65535
 		if c.Rng.Chance(12) {
-			return 65535 - 13 - 4 + c.Rng.Intn(9)
+			return 65535 - 13 - 3 + c.Rng.Intn(12) // 65519..65530: both limits (65522 with DTS, 65527 without) and neighbours
 		}
 		return 1 + c.Rng.Intn(600)
 	case 7:
@@ -499,6 +499,16 @@ func run(c *Ctx) {
 				f.pts = f.dts
 				if shape&2 == 2 {
 					f.pts = f.dts + 3003
+				}
+				cases = append(cases, &tcase{op: "raw", raw: []rawFrame{f}})
+			}
+		}
+		for _, sz := range []int{65521, 65522, 65523, 65526, 65527, 65528} {
+			for shape := 0; shape < 4; shape++ {
+				f := rawFrame{pid: 256, sid: 0xe0, dts: 777, key: shape&1 == 1, pl: c.Rng.Bytes(sz)}
+				f.pts = f.dts
+				if shape&2 == 2 {
+					f.pts = f.dts + 1
 				}
 				cases = append(cases, &tcase{op: "raw", raw: []rawFrame{f}})
 			}
